@@ -38,11 +38,14 @@ Lemma isz_arr_push a : isize (mk OP_ARR_PUSH a) = 1. Proof. reflexivity. Qed.
 Lemma isz_arr_len a : isize (mk OP_ARR_LEN a) = 1. Proof. reflexivity. Qed.
 Lemma isz_arr_get a : isize (mk OP_ARR_GET a) = 1. Proof. reflexivity. Qed.
 Lemma isz_arr_literal a : isize (mk OP_ARR_LITERAL a) = 4. Proof. reflexivity. Qed.
+Lemma isz_sop1 o a : isize (mk (sop1_code o) a) = 1. Proof. destruct o; reflexivity. Qed.
+Lemma isz_sop2 o a : isize (mk (sop2_code o) a) = 1. Proof. destruct o; reflexivity. Qed.
+Lemma isz_str_substr a : isize (mk OP_STR_SUBSTR a) = 1. Proof. reflexivity. Qed.
 
 #[export] Hint Rewrite csize_app csize_cons csize_nil
   isz_push_i64 isz_push_bool isz_push_str isz_push_void isz_dup isz_pop isz_load_local isz_store_local
   isz_load_global isz_store_global isz_neg isz_not isz_jmp isz_jmp_false isz_jmp_true isz_call isz_ret isz_assert
-  isz_binop isz_unop isz_sc isz_print isz_lt isz_add isz_arr_new isz_arr_push isz_arr_len isz_arr_get isz_arr_literal : csz.
+  isz_binop isz_unop isz_sc isz_print isz_lt isz_add isz_arr_new isz_arr_push isz_arr_len isz_arr_get isz_arr_literal isz_sop1 isz_sop2 isz_str_substr : csz.
 Ltac csz := autorewrite with csz.
 Ltac csz_in H := autorewrite with csz in H.
 
@@ -141,6 +144,9 @@ Fixpoint lit_small (e : expr) : Prop :=
                (fix go (l : list expr) : Prop := match l with [] => True | a :: r => lit_small a /\ go r end) es
   | EAt a i => lit_small a /\ lit_small i
   | ELen a => lit_small a
+  | EStr1 _ a => lit_small a
+  | EStr2 _ a b => lit_small a /\ lit_small b
+  | ESubstr a b c => lit_small a /\ lit_small b /\ lit_small c
   end.
 Definition lits_small_l : list expr -> Prop :=
   fix go (l : list expr) : Prop := match l with [] => True | a :: r => lit_small a /\ go r end.
@@ -182,7 +188,8 @@ Qed.
 Lemma compile_expr_wf G ce e : forall p c p',
   compile_expr G ce e p = Some (c, p') -> lims G (length ce) (length p') -> lit_small e -> Forall (wf_instr table) c.
 Proof.
-  induction e as [z|b|s|x|o a IHa|o a b IHa IHb|f args IHargs|c0 a b IHc IHa IHb|es IHes|a i IHa IHi|a IHa] using expr_ind2;
+  induction e as [z|b|s|x|o a IHa|o a b IHa IHb|f args IHargs|c0 a b IHc IHa IHb|es IHes|a i IHa IHi|a IHa
+                  |so a IHa|so a b IHa IHb|a b c1 IHa IHb IHc] using expr_ind2;
     intros p c p' H HL HS; cbn [lit_small] in HS.
   - inversion H. fa. apply wf_i64.
   - inversion H. fa. apply (wf_mk1 _ KU8); try reflexivity. destruct b; reflexivity.
@@ -229,6 +236,20 @@ Proof.
     + eapply IHi; eauto.
   - cbn [compile_expr] in H. dex H. inversion H; subst. apply Forall_app. split; [eapply IHa; eauto|].
     fa. wf0.
+  - cbn [compile_expr] in H. dex H. inversion H; subst. apply Forall_app. split; [eapply IHa; eauto|].
+    fa. destruct so; wf0.
+  - cbn [compile_expr] in H. dex H. dex H. inversion H; subst. destruct HS as [HSa HSb].
+    pose proof (compile_expr_pool _ _ _ _ _ _ E0) as P1. apply pool_le_length in P1.
+    repeat (apply Forall_app; split); fa; try (destruct so; wf0).
+    + eapply IHa; eauto. eapply lims_mono; [exact HL|lia|lia].
+    + eapply IHb; eauto.
+  - cbn [compile_expr] in H. dex H. dex H. dex H. inversion H; subst. destruct HS as (HSa & HSb & HSc).
+    pose proof (compile_expr_pool _ _ _ _ _ _ E0) as P1. pose proof (compile_expr_pool _ _ _ _ _ _ E1) as P2.
+    apply pool_le_length in P1, P2.
+    repeat (apply Forall_app; split); fa; try wf0.
+    + eapply IHa; eauto. eapply lims_mono; [exact HL|lia|lia].
+    + eapply IHb; eauto. eapply lims_mono; [exact HL|lia|lia].
+    + eapply IHc; eauto.
 Qed.
 
 Lemma for_code_wf n0 n : n0 + 7 <= n -> (N.of_nat n <= 65536)%N ->
